@@ -36,6 +36,10 @@ META = {
 }
 
 
+# categories as a service may name them: class names, module-qualified names, versioned names
+CATS = list(S.CATEGORIES) + ['services.planning.Optimize', 'v1.5', 'services.planning']
+
+
 def concurrent_saves(run, tape, clock, store, flavour):
     """Several threads of one process (request handlers of a service) save their recordings through one cassette
     object at the same time, under the seeded line-level scheduler; every recording must still round-trip."""
@@ -213,7 +217,7 @@ def scenario(run, tape, clock, store, flavour):
         if op == 'failed_save':
             # a save that does not happen: the value cannot be serialized, the storage request fails, or (S3) the
             # recording is sampled out at storage level.  The id was then never saved: fetching it must say so.
-            cat = tape.choice(S.CATEGORIES)
+            cat = tape.choice(CATS)
             how = tape.choice(['unserializable', 'put_fails', 'sampled_out'])
             r = cas.create_new_recording(cat)
             r.set_data('k', R_UNSER() if how == 'unserializable' else 1)
@@ -256,7 +260,7 @@ def scenario(run, tape, clock, store, flavour):
             run.ev('failed_save', how, r.id)
             continue
         if op == 'save' and len(model) < 12:
-            cat = tape.choice(S.CATEGORIES)
+            cat = tape.choice(CATS)
             data, metadata = gen_recording(tape, run, flavour)
             if not V.doc_faithful({'d': data, 'm': metadata}):
                 run.probe('outside_faithful_domain')
@@ -299,7 +303,7 @@ def scenario(run, tape, clock, store, flavour):
                 run.violate('metadata_alone_agrees', 'metadata-fetch-raised:%s' % type(ex).__name__, 'get_recording_metadata(%s) raised %r' % (rid, ex))
             run.ev('meta', rid)
         elif op == 'unknown':
-            base = tape.choice(order) if order and tape.draw(2) else '%s/%s' % (tape.choice(S.CATEGORIES), '20200101/' if store.kind == 's3' else '')
+            base = tape.choice(order) if order and tape.draw(2) else '%s/%s' % (tape.choice(CATS), '20200101/' if store.kind == 's3' else '')
             rid = base[:-3] + 'zzz' if base in model else base + 'never-saved'
             if rid in model:
                 continue
